@@ -339,7 +339,7 @@ pub fn run(tier: Tier) -> i32 {
     let rep: &'static Report = Box::leak(Box::new(Report::new("C20", tier, "model_checking")));
     let monitor = std::sync::Arc::new(HangMonitor::start(rep, "C20 setter history"));
     let depth: u8 = tier.pick(2, 3);
-    rep.set_rule("HIST (stateright BFS): all histories of real Condition setter calls up to the depth bound over the listed value alphabet, on V0, a generated 2-stream voice and a generated 4-stream voice (plus the fresh state and every single call on generated voices of 5..9 streams, thorough 33), each call made on a copy of the previous state's Condition (which must stay as it was); states merged by (depth, Debug rendering of the real Condition); a state is non-trivial if it differs from the initial rendering; plus a search to closure (depth cap 7/9) over the per-stream setters alone; invariant: every getter equals the clamped reference after every call");
+    rep.set_rule("HIST (stateright BFS): all histories of real Condition setter calls up to the depth bound over the listed value alphabet, on V0, a generated 2-stream voice and a generated 4-stream voice (plus the fresh state and every single call, incl. 19 further integers around 2^16, 2^31, 2^32, 2^53, 2^63 and usize::MAX, on generated voices of 5..9 streams, thorough 33), each call made on a copy of the previous state's Condition (which must stay as it was); states merged by (depth, Debug rendering of the real Condition); a state is non-trivial if it differs from the initial rendering; plus a search to closure (depth cap 7/9) over the per-stream setters alone; invariant: every getter equals the clamped reference after every call");
     rep.assume("f64 arguments are the 12-value alphabet {0,-0,±1,.5,1e-7,5e-324,±1e300,2,±24}; usize {0,1,2,48000,MAX}; other values are not explored");
     rep.assume("getter vs reference compared numerically (so -0.0 == 0.0), volume within 1e-9 dB");
     let mut total_states = 0u64;
@@ -409,7 +409,10 @@ pub fn run(tier: Tier) -> i32 {
                 rep.violation(format!("many-streams-initial:{}", m.split_whitespace().next().unwrap_or("")), format!("freshly loaded {}-stream voice: {}", ns, m), json!({"engine": cfg.describe(), "history": []}));
                 continue;
             }
-            for a in alphabet(ns, tier) {
+            // besides the alphabet: integers that a detour through f64, i64 or u32 would not survive
+            let wide: Vec<usize> = vec![65535, 65536, (1 << 31) - 1, 1 << 31, (1 << 32) - 1, 1 << 32, (1 << 32) + 1, (1 << 53) - 1, 1 << 53, (1 << 53) + 1, (1 << 53) + 3, (1 << 62) + 1, (1 << 63) - 1, 1 << 63, (1 << 63) + 1025, usize::MAX / 3, usize::MAX / 2, usize::MAX - 1, 10_000_000_000_000_000_000];
+            let wide_acts = wide.iter().flat_map(|v| [Act::Rate(*v), Act::Fperiod(*v)]);
+            for a in alphabet(ns, tier).into_iter().chain(wide_acts) {
                 n += 1;
                 let mut c = e.condition.clone();
                 let mut r = reference.clone();
